@@ -762,3 +762,50 @@ func RWTryRLock(m *sync.RWMutex) bool {
 	}
 	return ok
 }
+
+// ---- helpers for harness code (which is not instrumented) -----------------------------------
+
+// GoNode starts f as a scheduled goroutine tagged with node (instead of inheriting the caller's tag).
+func GoNode(node string, f func()) {
+	Go(func() {
+		SetNode(node)
+		f()
+	})
+}
+
+// RecvOrDone is `select { case v := <-ch: …; case <-done: … }` under the scheduler.
+func RecvOrDone[T any](ch <-chan T, done <-chan struct{}) (v T, ok bool) {
+	pre("select", nil)
+	if v, ok, got := TryRecv(ch); got {
+		return v, ok
+	}
+	if _, _, got := TryRecv(done); got {
+		return v, false
+	}
+	select {
+	case v, ok = <-ch:
+	case <-done:
+		ok = false
+	}
+	post("select")
+	return v, ok
+}
+
+// SendOrDone is `select { case ch <- v: …; case <-done: … }` under the scheduler; true if sent.
+func SendOrDone[T any](ch chan<- T, v T, done <-chan struct{}) bool {
+	pre("select", nil)
+	if TrySend(ch, v) {
+		return true
+	}
+	if _, _, got := TryRecv(done); got {
+		return false
+	}
+	sent := false
+	select {
+	case ch <- v:
+		sent = true
+	case <-done:
+	}
+	post("select")
+	return sent
+}
